@@ -751,10 +751,15 @@ def run(tier, seed):
               "the reference reader covers the Type 2 TLV area only; other types are judged by the monitor alone",
               "Type 4 tags are driven at the I-block level without transmission errors (C12's subject)",
               "a muted/removed tag is modelled by silence from the k-th command on")
+    from bind import c08_vendor                   # vendor classes: identification, ndef, dump(), signature, presence
+    c08_vendor.stage(ck, tier, seed)
     return ck.finish()
 
 
 def replay(rep, args):
+    if rep["replay"].get("kind") == "vendor-case":
+        from bind import c08_vendor
+        return c08_vendor.replay(rep, args)
     case = rep["replay"]["case"]
     tr = run_case(case)
     verdicts, st = tlc.validate_traces("Trace_TagRead.tla", "Trace_TagRead.cfg", PID + "_replay", [tr], shards=1)
